@@ -4,6 +4,7 @@ from vf import runner, sweep
 from vf.runner import UnitSpec
 
 CLAIMS = ['host', 'range', 'align']
+SELECTION = {}
 
 
 def shard_units(tier, claims, mode=None, tag='', arch=7, sec=True, seed=0, always=(), **kw):
@@ -11,9 +12,21 @@ def shard_units(tier, claims, mode=None, tag='', arch=7, sec=True, seed=0, alway
         sh = sweep.quick_sample(sweep.arm_shards(), 24, seed) + sweep.quick_sample(sweep.t16_shards(), 24, seed) + \
             sweep.quick_sample(sweep.t32_shards(), 24, seed)
         have = set(n for n, _ in sh)
-        for n, pins in sweep.arm_shards() + sweep.t16_shards() + sweep.t32_shards():
+        allsh = sweep.arm_shards() + sweep.t16_shards() + sweep.t32_shards()
+        for n, pins in allsh:
             if n.split('/list')[0] in always and n not in have:
                 sh.append((n, pins))
+                have.add(n)
+        # change-directed selection (vf/changed.py): shards that executed a source file which differs from the tree
+        # the thorough tier last passed on, when that file is specific to few shards (an opcode, a decoder)
+        from vf import changed
+        extra, info = changed.extra_shards([n for n, _ in allsh])
+        SELECTION.update(info)
+        byname = dict(allsh)
+        for n in extra:
+            if n not in have:
+                sh.append((n, byname[n]))
+                have.add(n)
     else:
         sh = sweep.arm_shards() + sweep.t16_shards() + sweep.t32_shards()
     us = []
@@ -51,7 +64,9 @@ META = {
     'bounds': ['single step from an arbitrary valid state (multi-instruction programs follow by induction with the '
                'range/alignment invariants re-established after every step)', 'register lists of LDM/STM are windowed: '
                '4 list bits symbolic (r0-r3 or r12-r15 incl. SP/LR/PC/base-in-list; Thumb-16: r0-r3 or r4-r7), the others zero',
-               'quick: 24 ARM + 24 Thumb-16 + 24 Thumb-32 shards spread over the space (offset rotated by VERIF_SEED); thorough: all shards '
+               'quick: 24 ARM + 24 Thumb-16 + 24 Thumb-32 shards spread over the space (offset rotated by VERIF_SEED) plus, '
+               'change-directed, the shards that executed a source file differing from the last fully checked tree when '
+               'that file is specific to at most 24 shards (vf/changed.py; selection only, verdicts stay per shard); thorough: all shards '
                '(+ arch 6, no-security and SCTLR.{A,V,EE,TE}-symbolic samples)', 'MPU off',
                'SCR.NS, NSACR.cp0-13 and CPACR.cp0-13 symbolic (secure and non-secure state, every coprocessor access '
                'setting); other system registers at their reset values'],
